@@ -1,0 +1,75 @@
+//go:build verif
+
+// Contracts for the pattern matcher (C14: safety and progress; matcher equivalence is not covered).
+// Comment-only; read by /verif/engine. See ../contracts_verif.go.
+
+package pm
+
+//@ define Inv_md(st *MatchData) bool = st != nil && offset(st.captures) == 0
+
+//@ func (*MatchData).setCapture [C14]
+//@ requires Inv_md(st) && s >= 0
+//@ noraise
+//@ ensures  Inv_md(st) && len(st.captures) > s && len(st.captures) >= old(len(st.captures)) && st.captures[s] == uint32(uint32(pos) * 2)
+//@ ensures  forall k int :: 0 <= k && k < old(len(st.captures)) && k != s ==> st.captures[k] == old(st.captures[k])
+//@ ensures  forall k int :: old(len(st.captures)) <= k && k < len(st.captures) && k != s ==> st.captures[k] == 0
+//@ ensures  result == ite(s < old(len(st.captures)), old(st.captures[s]), 0)
+//@ modifies st.captures, st.captures[*]
+//@ loop 1 invariant Inv_md(st) && len(st.captures) >= old(len(st.captures)) && (len(st.captures) <= s + 1 || len(st.captures) == old(len(st.captures))) && (arrid(st.captures) == old(arrid(st.captures)) || fresh(st.captures))
+//@ loop 1 invariant forall k int :: 0 <= k && k < old(len(st.captures)) ==> st.captures[k] == old(st.captures[k])
+//@ loop 1 invariant forall k int :: old(len(st.captures)) <= k && k < len(st.captures) ==> st.captures[k] == 0
+
+//@ func (*MatchData).addPosCapture [C14]
+//@ requires Inv_md(st) && s >= 0
+//@ noraise
+//@ ensures  Inv_md(st) && len(st.captures) > s + 1 && len(st.captures) >= old(len(st.captures)) && st.captures[s] == uint32(uint32(pos) * 2) + 1 && st.captures[s+1] == uint32(uint32(pos) * 2) + 1
+//@ ensures  forall k int :: 0 <= k && k < old(len(st.captures)) && k != s && k != s + 1 ==> st.captures[k] == old(st.captures[k])
+//@ modifies st.captures, st.captures[*]
+//@ loop 1 invariant Inv_md(st) && len(st.captures) >= old(len(st.captures)) && (arrid(st.captures) == old(arrid(st.captures)) || fresh(st.captures))
+//@ loop 1 invariant forall k int :: 0 <= k && k < old(len(st.captures)) ==> st.captures[k] == old(st.captures[k])
+
+//@ func (*MatchData).restoreCapture [C14]
+//@ requires Inv_md(st) && 0 <= s && s < len(st.captures)
+//@ noraise
+//@ ensures  Inv_md(st) && len(st.captures) == old(len(st.captures)) && st.captures[s] == pos
+//@ ensures  forall k int :: 0 <= k && k < len(st.captures) && k != s ==> st.captures[k] == old(st.captures[k])
+//@ modifies st.captures[*]
+
+//@ func (*MatchData).Capture [C14]
+//@ requires Inv_md(st) && 0 <= idx && idx < len(st.captures)
+//@ noraise
+//@ ensures  result == st.captures[idx] / 2 && 0 <= result
+//@ modifies nothing
+
+//@ func (*MatchData).IsPosCapture [C14]
+//@ requires Inv_md(st) && 0 <= idx && idx < len(st.captures)
+//@ noraise
+//@ ensures  result <==> st.captures[idx] % 2 == 1
+//@ modifies nothing
+
+//@ func (*MatchData).CaptureLength [C14]
+//@ requires st != nil
+//@ noraise
+//@ ensures  result == len(st.captures)
+//@ modifies nothing
+
+//@ iface class.Matches [C14]
+//@ assume character classes are pure predicates on a byte
+//@ noraise
+//@ modifies nothing
+
+// Program validity: operands of jumps/splits are instruction indices, every instruction but the final opMatch is
+// followed by another one, opChar has a class. compilePattern establishes it (not verified here: recursive).
+//@ define Inv_prog(insts []inst) bool = offset(insts) == 0 && len(insts) >= 1 && (forall k int :: 0 <= k && k < len(insts) ==> 0 <= insts[k].OpCode && insts[k].OpCode <= 8 && (insts[k].OpCode == 3 ==> 0 <= insts[k].Operand1 && insts[k].Operand1 < len(insts)) && (insts[k].OpCode == 4 ==> 0 <= insts[k].Operand1 && insts[k].Operand1 < len(insts) && 0 <= insts[k].Operand2 && insts[k].Operand2 < len(insts)) && (insts[k].OpCode == 0 ==> insts[k].Class != nil) && ((insts[k].OpCode == 5 || insts[k].OpCode == 6 || insts[k].OpCode == 8) ==> 0 <= insts[k].Operand1 && insts[k].Operand1 < 1000000) && (insts[k].OpCode != 1 && insts[k].OpCode != 2 ==> k + 1 < len(insts)))
+
+// recursiveVM: no index, slice or nil panic for ANY subject, program satisfying Inv_prog, position and capture state;
+// the only Go panics that can leave it are *pm.Error values (pattern errors, turned into a Lua error by Find's handler).
+//@ func recursiveVM [C14]
+//@ requires Inv_prog(insts) && 0 <= pc && pc < len(insts) && 0 <= sp && 0 <= recLevel && offset(src) == 0 && offset(ms) == 0
+//@ requires len(ms) > 0 ==> Inv_md(ms[0])
+//@ may-panic type Error
+//@ ensures  result2 != nil && Inv_md(result2) && 0 <= result1 && (len(ms) > 0 ==> result2 == ms[0] && len(ms[0].captures) >= old(len(ms[0].captures)))
+//@ modifies type MatchData.captures, elems(uint32)
+//@ loop 1 invariant 0 <= pc && pc < len(insts) && 0 <= sp && Inv_md(m) && (len(ms) > 0 ==> m == ms[0] && len(m.captures) >= old(len(ms[0].captures)))
+//@ loop 2 invariant 0 <= sp && Inv_md(m) && (len(ms) > 0 ==> m == ms[0] && len(m.captures) >= old(len(ms[0].captures))) && 0 <= pc && pc < len(insts) && insts[pc].OpCode == 7
+//@ loop 3 invariant 0 <= i && 0 <= sp && Inv_md(m) && (len(ms) > 0 ==> m == ms[0] && len(m.captures) >= old(len(ms[0].captures))) && 0 <= pc && pc < len(insts) && insts[pc].OpCode == 8 && offset(capture) >= 0
